@@ -11,6 +11,7 @@ import SakuraVerif.Model.Tie
 import SakuraVerif.Driver.ReserveOps
 import SakuraVerif.Driver.LexOps
 import SakuraVerif.Driver.ExecOps
+import SakuraVerif.Driver.ScriptExecOps
 import SakuraVerif.Props.C09
 open Sakura Sakura.Wire Sakura.Driver
 
@@ -41,6 +42,7 @@ def handle (line : String) : String :=
   | "builtin" :: name :: args => "ok " ++ builtinEval name args
   | ["coresem", prog] => "ok " ++ coreSem prog
   | ["spec.c03", prog, bin] => "ok " ++ specC03 prog (unhex bin)
+  | ["scriptexec", toks, funcs] => "ok " ++ scriptExecOp toks funcs
   | ["script", prog] => "ok " ++ scriptRun prog
   | ["timespec", tb, fr, de, sh, args] => s!"ok out={Sakura.Time.getTime (parseInt tb) (parseInt fr) (parseInt de) (parseInt sh) (parseIntList args)}"
   | ["pflaw", p, evs] => "ok ev=" ++ showEvents (pfLaw (parseInt p) (parseEvents evs))
